@@ -1,7 +1,7 @@
 (* C05/TieEnc.v — flattening of model runs into integer lists, for the correspondence step only
    (harness/props/c05.py produces the same flattening from the real classes; compared by digest).
    Test plumbing: no theorem depends on this file. *)
-From CF Require Import C05.Model.
+Require Import CF.C05.Model.
 Open Scope Z_scope.
 
 Definition enc_exn (x : option exn) : Z :=
@@ -58,13 +58,16 @@ Fixpoint enc_run (s : st) (evs : list ev) : list Z :=
       [zlen o] ++ concat (map enc_obs o) ++ [enc_exn x] ++ st_hash s1 ++ enc_run s1 r
   end.
 
-Fixpoint enc_run_full (s : st) (evs : list ev) : list Z :=
+(* one full record per event (used only to localise a difference: digests first, then one record) *)
+Fixpoint enc_run_recs (s : st) (evs : list ev) : list (list Z) :=
   match evs with
   | [] => []
   | e :: r =>
       let '(s1, o, x) := step s e in
-      [zlen o] ++ concat (map enc_obs o) ++ [enc_exn x] ++ enc_st s1 ++ enc_run_full s1 r
+      ([zlen o] ++ concat (map enc_obs o) ++ [enc_exn x] ++ enc_st s1) :: enc_run_recs s1 r
   end.
+
+Definition rec_hash (l : list Z) : Z := fold_left (mix 31 65521) l 17 + 65536 * fold_left (mix 37 65519) l 23.
 
 Definition enc_sl_obs (o : sl_obs) : Z :=
   match o with YSample k => 10 + k | YStop => 1 | YBlocked => 2 | YNone => 0 | YRaise => 3 end.
